@@ -833,11 +833,13 @@ def r13_4(prog, out):
                 what.append("Paging fields %s" % sorted(f[1] for f in pf))
             if not lens:
                 what.append("no page length")
-            if not (arith and arith <= {"Add", "AddWithOverflow"}):
+            sat = any(c.split("::")[-1] == "saturating_add" for c in sv.calls)      # offset.saturating_add(len): the same sum, capped
+            if not ((arith and arith <= {"Add", "AddWithOverflow"}) or (sat and not arith)):
                 what.append("operators %s" % sorted(arith))
             if consts - {0}:
                 what.append("constants %s" % sorted(consts - {0}))
-            other_calls = {c.split("::")[-1] for c in sv.calls} & {"max", "min", "saturating_add", "saturating_sub", "wrapping_add", "checked_add", "pow", "count", "capacity"}
+            other_calls = {c.split("::")[-1] for c in sv.calls} & ({"max", "min", "saturating_add", "saturating_sub", "wrapping_add", "checked_add", "pow", "count", "capacity"}
+                                                                      - ({"saturating_add"} if sat and not arith else set()))
             if other_calls:
                 what.append("calls %s" % sorted(other_calls))
             if what:
